@@ -146,6 +146,12 @@ prop("C13", "keep-alive detects a silent peer and only a silent peer", "fault_en
 
 E4RULE = 'Cases are rapid-generated (request history x fault plan x configuration) and run against the real ReconnectClient over an in-memory transport whose broker model processes every client packet synchronously; fault positions are structural (cut before/after the j-th packet or the n-th packet of a type on connection c, refused / absent CONNACK, dial error, held dialler = outage), so a case is a value that replays. '
 
+ENUMRULE = (" Bounded-exhaustive leg (CutEnum): for fixed small workloads the tree of cut placements is explored depth first - a plan "
+            "is a list of cuts, the i-th on connection i, before or after the j-th client packet (j=1 is CONNECT, so 'after 1' loses the "
+            "CONNACK); children extend a plan at every packet position of the connection on which the parent run completed, so every "
+            "reachable placement of up to D cuts at packet boundaries is run exactly once (D = 2..3 quick, 3..4 thorough; plans per "
+            "workload and depth are in extra.enum_*), under the same oracle. Non-trivial there = at least one cut fired.")
+
 prop("C01", "no accepted QoS>=1 publish / subscribe / unsubscribe is lost", "fault_enumeration",
      E4RULE + "C01: 1..14 submits (QoS0/1/2 publishes, subscribe, unsubscribe with unique marker filters) placed before Connect, while "
      "connected and during held outages, 0..6 faults piled on successive connections. Oracle at quiescence (queues empty): every "
@@ -153,8 +159,9 @@ prop("C01", "no accepted QoS>=1 publish / subscribe / unsubscribe is lost", "fau
      "connection not cut at that packet; a client idle for 3 s with work undone on a reachable broker is a violation (stuck "
      "detector), a budget hit while still progressing is inconclusive. Non-trivial = a fault fired while >= 1 accepted QoS>=1 "
      "request was unacknowledged, or a request was submitted before the first connection / during an outage; distinct = FNV-64 "
-     "of the case JSON.",
-     [dict(tests="^TestVerifC01_NoLoss$", checks_quick=2500, checks_thorough=36000, shards=12),
+     "of the case JSON." + ENUMRULE,
+     [dict(tests="^TestVerifC01_CutEnum$", exhaustive_once=True),
+      dict(tests="^TestVerifC01_NoLoss$", checks_quick=2500, checks_thorough=36000, shards=12),
       dict(tests="^TestVerifC01_ReconnectRace$", checks_quick=2000, checks_thorough=30000, shards=8, shards_quick=2)],
      assumptions=["ResponseTimeout 0, keep-alive off, Disconnect never called, Transport.Write never returns io.EOF (the property's stated assumptions)",
                   "the broker eventually stays reachable: every fault fires at most once"])
@@ -165,16 +172,18 @@ prop("C02", "QoS 2 delivered onward exactly once across reconnects", "fault_enum
      "each accepted QoS2 message is in the delivery log exactly once; (2) once PUBCOMP for a message was provably consumed (the "
      "client wrote another packet on that connection afterwards, or it was still up at quiescence) no PUBLISH with its tag and no "
      "PUBREL with its id is ever emitted again. Non-trivial = a cut fired between the first PUBLISH and the PUBCOMP of a QoS2 "
-     "message; distinct = FNV-64 of the case JSON.",
-     [dict(tests="^TestVerifC02_ExactlyOnce$", checks_quick=3000, checks_thorough=45000, shards=16)],
+     "message; distinct = FNV-64 of the case JSON." + ENUMRULE,
+     [dict(tests="^TestVerifC02_CutEnum$", exhaustive_once=True),
+      dict(tests="^TestVerifC02_ExactlyOnce$", checks_quick=3000, checks_thorough=45000, shards=16)],
      assumptions=["broker follows MQTT-4.3.3 receiver rules and keeps session state", "one request outstanding at a time in the task goroutine (keep-alive off, DirectlyPublishQoS0 off)"])
 
 prop("C03", "submission order on the wire, also when retransmitted", "fault_enumeration",
      E4RULE + "C03: one submitting goroutine, queued publishing mode. Oracle: per connection the PUBLISH packets of different messages "
      "are in submission order; over the run the first emissions of requests (PUBLISH/SUBSCRIBE/UNSUBSCRIBE, delivered or lost) "
      "are in submission order; first deliveries of QoS>=1 messages are in submission order. Non-trivial = >= 2 QoS>=1 requests "
-     "pending at a fired fault; distinct = FNV-64 of the case JSON.",
-     [dict(tests="^TestVerifC03_Order$", checks_quick=2500, checks_thorough=36000, shards=16)],
+     "pending at a fired fault; distinct = FNV-64 of the case JSON." + ENUMRULE,
+     [dict(tests="^TestVerifC03_CutEnum$", exhaustive_once=True),
+      dict(tests="^TestVerifC03_Order$", checks_quick=2500, checks_thorough=36000, shards=16)],
      assumptions=["DirectlyPublishQoS0 off (the default mode the property is about)", "connections fail only by closing / refusal / dial errors"])
 
 prop("C12", "retransmissions are faithful", "fault_enumeration",
@@ -182,8 +191,9 @@ prop("C12", "retransmissions are faithful", "fault_enumeration",
      "cuts at every step; separately the base client's ErrorWithRetry handle driven through 1..5 interrupted fresh clients. Oracle "
      "over everything passed to Transport.Write (delivered or lost): first PUBLISH of a message DUP=0, later ones DUP=1 and "
      "identical in id/topic/payload/QoS/retain; QoS0 at most once; no PUBLISH after a PUBREL that was written successfully. "
-     "Non-trivial = a message was emitted >= 2 times; distinct = FNV-64 of the case JSON.",
-     [dict(tests="^TestVerifC12_Retransmit$", checks_quick=2500, checks_thorough=36000, shards=12),
+     "Non-trivial = a message was emitted >= 2 times; distinct = FNV-64 of the case JSON." + ENUMRULE,
+     [dict(tests="^TestVerifC12_CutEnum$", exhaustive_once=True),
+      dict(tests="^TestVerifC12_Retransmit$", checks_quick=2500, checks_thorough=36000, shards=12),
       dict(tests="^TestVerifC12_RetryHandle$", checks_quick=2500, checks_thorough=75000, shards=4)],
      assumptions=["a PUBREL whose Write failed does not count as sent for the 'no PUBLISH after PUBREL' rule"])
 
@@ -202,8 +212,9 @@ prop("C08", "broker-side subscriptions converge to the app's calls", "fault_enum
      "after the broker saw it, further Subscribe/Unsubscribe/Publish calls meanwhile; non-trivial there = session lost and a restore "
      "SUBSCRIBE or its SUBACK lost. Rule (2) is a per-filter count: a SUBSCRIBE carrying f on a must-not-resubscribe connection needs "
      "fewer received SUBACKs for f than (calls naming f + session-less non-first CONNACKs so far). Convergence is not demanded when the "
-     "broker dropped the session but that CONNACK never reached the client (undetectable in MQTT).",
-     [dict(tests="^TestVerifC08_Timeouts$", checks_quick=1000, checks_thorough=12000, shards=8),
+     "broker dropped the session but that CONNACK never reached the client (undetectable in MQTT)." + ENUMRULE,
+     [dict(tests="^TestVerifC08_CutEnum$", exhaustive_once=True),
+      dict(tests="^TestVerifC08_Timeouts$", checks_quick=1000, checks_thorough=12000, shards=8),
       dict(tests="^TestVerifC08_Restore$", checks_quick=1500, checks_thorough=20000, shards=8),
       dict(tests="^TestVerifC08_Subscriptions$", checks_quick=3000, checks_thorough=45000, shards=16)],
      assumptions=["granted QoS equals requested QoS at the broker model", "quiescence is decided with the verif-tagged observation hook after the reconnect loop pushed its tasks"])
